@@ -51,6 +51,43 @@ theorem abs_slot_spec (dec : Kind → Val → Bool) (ws : List (AKey × Val)) (k
   simp only [Abs.slot, this, h0]
   cases lastWrite k none ws <;> rfl
 
+/-!
+### Open item on the unchanged tree
+
+Full statement wanted by C18: *metadata, signer certificate and locations read back equal to what was written* for every
+value. The store part holds for every value the deserializer accepts (`metadata_readback_partial`, and through
+`map_refines`/`ldb_refines` on both backends). It fails for the serializer itself on one value shape: a `CRLMetaInfo`
+whose `NextUpdate` lies outside 1950..2049 is written as GeneralizedTime under the implicit tag [0] and read as UTCTime,
+so `GetCRLMetaInfo` returns an error (`metadata_readback_counterexample`; harness signature
+`C18 serializer-cannot-read-back-own-output type=meta`, listed in known_findings.json; the year rule of the mini-model is
+diffed against the real serializer on every run).
+-/
+
+/-- Whatever was written last to a slot is read back unchanged, provided the deserializer accepts it. -/
+theorem metadata_readback_partial (dec : Kind → Val → Bool) (ws : List (AKey × Val)) (k : AKey) (v : Val)
+    (hlast : lastWrite k none ws = some v) (hdec : dec k.kind v = true) :
+    (Abs.empty.fill ws).slot dec k = some v := by
+  rw [abs_slot_spec, hlast]
+  simp [hdec]
+
+/-- The serializer's part of the partial statement: `NextUpdate` absent or within 1950..2049 is readable ... -/
+theorem meta_nextUpdate_readable_partial (y : Option Nat) (h : ∀ year, y = some year → 1950 ≤ year ∧ year < 2050) :
+    metaNextUpdateReadable y = true := by
+  cases y with
+  | none => rfl
+  | some year => simp [metaNextUpdateReadable, marshalTimeForm, h year rfl]
+
+/-- ... and a value outside is not: written, then unreadable on both backends. -/
+theorem metadata_readback_counterexample :
+    metaNextUpdateReadable (some 2050) = false ∧
+    ∀ (dec : Kind → Val → Bool) (v : Val), dec .minfo v = false →
+      (Abs.empty.fill [(.minfo, v)]).slot dec .minfo = none ∧
+      (MapStore.new.fill [(.minfo, v)]).slot dec .minfo = none := by
+  refine ⟨by decide, fun dec v hv => ⟨?_, ?_⟩⟩
+  · rw [abs_slot_spec]
+    simp [lastWrite, AKey.kind, hv]
+  · simp [MapStore.new, MapStore.fill, MapStore.put, MapStore.slot, MapStore.rawGet, aget, AKey.kind, hv]
+
 /-- Replace is replace, not merge: after `replace ws` nothing of the earlier content is visible. -/
 theorem replace_discards (dec : Kind → Val → Bool) (a : Abs) (ws : List (AKey × Val)) :
     (a.step dec (.replace ws)).1 = Abs.empty.fill ws := rfl
